@@ -359,9 +359,52 @@ def reach(tot, tier):
     return out
 
 
+MON_ID = "C03"
+
+
+# ---- the repository's own test-suite as a workload under the boundary monitors (thorough tier) --------------------------
+def gen_suite(rng, i, tier):
+    return dict(which=MON_ID)
+
+
+def run_suite(ctx, p):
+    import glob
+    import json
+    import os
+    import shutil
+    import subprocess
+    import sys
+    import tempfile
+    from ..core import VERIF
+    if p.get("test"):
+        tests = [p["test"]]
+    else:
+        tests = ["exactpack/tests"]
+    repo = os.environ.get("EXACTPACK_REPO", "/repo")
+    out = tempfile.mkdtemp(prefix="rtm_suite_")
+    env = dict(os.environ, EXACTPACK_VERIF="1", RTM_SUITE_OUT=out, RTM_SUITE_MONITORS=MON_ID, MPLBACKEND="Agg")
+    try:
+        cmd = [sys.executable, "-m", "pytest", "-q", "-p", "no:cacheprovider", "-p", "rtm.pytest_plugin", "--timeout=900", "-n", "8"] + tests
+        pr = subprocess.run(cmd, cwd=repo, env=env, capture_output=True, text=True, timeout=5400)
+        tail = pr.stdout.strip().split("\n")[-1] if pr.stdout.strip() else ""
+        ctx.count("suite_pytest_exit_%s" % pr.returncode)
+        n = 0
+        for f in glob.glob(os.path.join(out, "suite_*.json")):
+            with open(f) as fh:
+                d = json.load(fh)
+            n += d.get("boundary_events", 0)
+            ctx.absorb(d, unit="suite")
+        ctx.count("suite_boundary_events", n)
+        if n == 0:
+            raise Skip("suite_replay_observed_nothing: " + tail[:80])
+    finally:
+        shutil.rmtree(out, ignore_errors=True)
+
+
 UNITS = [
     Unit("catalogue", gen_cat, run_cat, quick=480, thorough=4800, min_nontrivial=400),
     Unit("riemann", gen_rm, run_rm, quick=400, thorough=6000, min_nontrivial=300),
     Unit("piston", gen_pis, run_pis, quick=90, thorough=1800, min_nontrivial=60),
     Unit("bbnoh", gen_bb, run_bb, quick=120, thorough=2400, min_nontrivial=60),
+    Unit("suite", gen_suite, run_suite, quick=0, thorough=1, min_nontrivial=100),
 ]
